@@ -4,7 +4,7 @@
    query answers - is computed by the model and compared with the implementation's observations. *)
 From Coq Require Import ZArith List Bool.
 Import ListNotations.
-From Osmo Require Import Base.Obs Base.DecModel Gen.C10_consts C10.Model.
+From Osmo Require Import Base.Obs Base.DecModel Gen.C10_consts C10.Model C10.LogExp.
 Open Scope Z_scope.
 
 Inductive cop :=
@@ -75,5 +75,12 @@ End Run.
 Definition no_log (_ : Z) : option Z := Some 0.
 Definition no_exp (_ : Z) : option Z := None.
 
-Definition model_obs (c : case) : list Z := obs_of no_log no_exp false c.
+Definition model_obs (c : case) : list Z :=
+  if c_geom c then obs_of twap_log exp2 true c else obs_of no_log no_exp false c.
 Definition case_ok (c : case) : bool := zlist_eqb (model_obs c) (c_expect c).
+
+(* the same with the logarithms of a history taken from a table computed once by [build_tab]
+   (C10/ProofsLog.v lg_cached_correct: [lg_cached (build_tab ps)] is pointwise [twap_log]) *)
+Definition model_obs_tab (tab : list (Z * option Z)) (c : case) : list Z :=
+  if c_geom c then obs_of (lg_cached tab) exp2 true c else obs_of no_log no_exp false c.
+Definition case_ok_tab (tab : list (Z * option Z)) (c : case) : bool := zlist_eqb (model_obs_tab tab c) (c_expect c).
